@@ -207,7 +207,7 @@ def _mtype(b):
 
 
 def shards(tier):
-    n = 800 if tier == 'quick' else 40000
+    n = 2000 if tier == 'quick' else 40000
     return [{'name': 'stop-%d' % i, 'kind': 'hyp', 'examples': n, 'hypothesis': True} for i in range(8 if tier == 'quick' else 16)]
 
 
